@@ -188,7 +188,7 @@ def cleanupWs (q : EscQuirks) : List (List Char) → List (List Char)
 /-- the internal value of the literal `"content"` -/
 def parseDq (q : EscQuirks) (content : List Char) : Option (List Char) :=
   (dqParts q (content.length + 1) content).map fun ps =>
-    (cleanupWs q (ps.filter (· ≠ []))).flatten
+    (cleanupWs q ps).flatten   -- the empty part of a line continuation stays in the list
 
 /-! ## rsass: printing a string value -/
 
